@@ -363,6 +363,16 @@ func (ms *Modules) process() []error {
 		}
 		return mods[i].FullName() < mods[j].FullName()
 	})
+	// What an earlier call bound must not survive where this call gives
+	// up before it gets there.
+	for _, m := range mods {
+		for _, i := range m.Include {
+			i.Module = nil
+		}
+		for _, i := range m.Import {
+			i.Module = nil
+		}
+	}
 	for _, m := range mods {
 		if err := ms.include(m); err != nil {
 			errs = append(errs, err)
